@@ -1,7 +1,7 @@
 """C12 indexed FASTA — GD-4 (errors instead of wrong data), SB-2 (buffer and iterator paths check the same things),
 TS-6 (fetch sets all three cursor fields, on success only), PO-3 (panic obligations)."""
 import re
-from . import eng_po, eng_gd
+from . import eng_po, eng_gd, inline
 from .mirlib import call_info, strip, strip_casts, fmt, walk
 
 LEVEL = 'other'
@@ -45,11 +45,32 @@ AUDIT = {
 }
 
 
+# functions the rules below (and the audited table) name themselves; every other private helper is analysed in place
+KEEP = {'seek_to', 'read_line', 'read_into_buffer', 'read_into_iter', 'fill_buffer', 'idx', 'idx_by_rid', 'fetch',
+        'fetch_by_rid', 'fetch_all', 'fetch_all_by_rid', 'read', 'read_iter', 'next', 'new', 'with_index', 'from_file'}
+
+
+def _keep(path):
+    return path.rsplit('::', 1)[-1] in KEEP
+
+
+def ibody(facts, path):
+    b = facts.body(path)
+    return inline.inlined(facts, b, _keep) if b is not None else None
+
+
 def err_on(b, region_blocks):
+    """an Err is produced in the region: built into the return place (or the return place of an inlined helper), or
+    propagated by `?`"""
     for x in region_blocks:
         for s in b.stmts(x):
-            if s['k'] == 'assign' and s['p']['l'] == 0 and s['r']['k'] == 'agg' and s['r'].get('variant') == 'Err':
+            if s['k'] == 'assign' and s['r']['k'] == 'agg' and s['r'].get('variant') == 'Err' and 'pj' not in s['p'] and \
+                    (s['p']['l'] == 0 or b.locals[s['p']['l']].get('inl')):
                 return True
+        t = b.term(x)
+        if t['k'] == 'call' and 'pj' not in t['dest'] and t['dest']['l'] == 0 and call_info(t) and \
+                call_info(t)['fn'].endswith('FromResidual::from_residual'):
+            return True
     return False
 
 
@@ -61,7 +82,7 @@ def gd4(facts, rep):
                    'read_line returns Err(UnexpectedEof) when the underlying reader is exhausted, before consuming')
     n = 0
     for nm, callee in (('read', 'read_into_buffer'), ('read_iter', 'read_into_iter')):
-        b = facts.body(PRE + nm)
+        b = ibody(facts, PRE + nm)
         key = 'IndexedReader::%s|needs-complete-fetch' % nm
         if b is None:
             rep.missing(rule, key, 'not found')
@@ -100,7 +121,7 @@ def gd4(facts, rep):
                                                '(or a None edge does not return Err)' % (callee, len(some_edges)))
     sigs = {}
     for nm in ('read_into_buffer', 'read_into_iter'):
-        b = facts.body(PRE + nm)
+        b = ibody(facts, PRE + nm)
         key = 'IndexedReader::%s|interval-validated-before-seek' % nm
         if b is None:
             rep.missing(rule, key, 'not found')
@@ -155,7 +176,7 @@ def gd4(facts, rep):
         else:
             rep.bad(rule2, key, '', 'buffer path checks %s, iterator path checks %s' % (core(a), core(c)))
     for nm in ('idx', 'idx_by_rid'):
-        b = facts.body(PRE + nm)
+        b = ibody(facts, PRE + nm)
         key = 'IndexedReader::%s|unknown-is-error' % nm
         if b is None:
             rep.missing(rule, key, 'not found')
@@ -179,7 +200,7 @@ def gd4(facts, rep):
             rep.ok(rule, key, '%s:%s' % (b.file, b.line), 'lookup miss -> Err')
         else:
             rep.bad(rule, key, '%s:%s' % (b.file, b.line), 'a missing name / record number does not produce Err')
-    b = facts.body(PRE + 'read_line')
+    b = ibody(facts, PRE + 'read_line')
     key = 'IndexedReader::read_line|eof-is-error-before-consume'
     if b is None:
         rep.missing(rule, key, 'not found')
@@ -209,6 +230,7 @@ def gd4(facts, rep):
     if nx is None:
         rep.missing(rule, key, 'not found')
     else:
+        nx = inline.inlined(facts, nx, _keep)
         rep.analysed_body(nx)
         fb = [bb for bb, t in nx.calls() if call_info(t) and call_info(t)['fn'].endswith('::fill_buffer')]
         es = eng_gd.edges_where(nx, lambda c: c == ('Lt', '0', 'self.bases_left'))
@@ -310,8 +332,7 @@ def po3(facts, rep):
         if not b.path.startswith(('io::fasta', '<io::fasta')):
             continue
         rep.analysed_body(b)
-        ia = eng_po.Intervals(b, facts).run()
-        for o in eng_po.obligations(b, ia):
+        for o in eng_po.obligations_in_context(facts, b, _keep):
             total += 1
             key = '%s|%s|%s' % (b.path, o['kind'], o['ops'])
             if o['discharged']:
